@@ -1,4 +1,117 @@
-(* placeholder, replaced below *)
-From JC Require Import Base Value SerModel.
-Theorem C02_placeholder : True. Proof. exact I. Qed.
-Print Assumptions C02_placeholder.
+(* Properties_C02.v — statements only.  C02: serialization emits valid JSON denoting the tree;
+   parse(serialize(T)) = T.  Model: SerModel.v (json_object.c serializer as written, over the
+   libc oracle fmt17 = the "%.17g" text of a finite double); specification: SerSpec.v (RFC 8259
+   syntax with denotation, written from the RFC only); proofs: SerProofs.v.
+
+   Guard of the theorems ([node_ok], at every node of the tree): strings and member names are
+   byte strings (0..255; any bytes incl. NUL, control bytes, non-UTF-8 — read byte-wise, see
+   SerSpec.v); a uint64 node is not negative; a double printed through %.17g is FINITE (NaN and
+   Infinity are printed as words, which are not JSON: the property says "any finite double") and —
+   the guard of the refuted part — JSON_C_TO_STRING_NOZERO is off or its %.17g text has no
+   exponent; a retained text is an RFC 8259 number token (what the parser retains; a caller of
+   json_object_new_double_s chooses it).  Hypothesis on the oracle ([fmt17_ok]): %.17g prints
+   [-]digits[.digits][e(+|-)digits], lower-case e, under 126 bytes, fraction not ending in 0. *)
+From JC Require Import Base Value SerModel SerSpec SerProofs.
+Local Open Scope Z_scope.
+
+(* ---- 1. valid RFC 8259 text that denotes exactly the tree: every tree, every flag word without COLOR *)
+Theorem C02_ser_is_valid : forall fmt17, fmt17_ok fmt17 -> forall fl v,
+  color fl = false -> jv_Forall (node_ok fmt17 fl) v ->
+  exists s, stx_ok s = true /\ render s = serialize fmt17 fl 0 v /\ denotes fmt17 (value s) v.
+Proof. exact ser_is_valid. Qed.
+Print Assumptions C02_ser_is_valid.
+
+Theorem C02_ser_is_rfc8259 : forall fmt17, fmt17_ok fmt17 -> forall fl v,
+  color fl = false -> jv_Forall (node_ok fmt17 fl) v -> rfc8259_text (serialize fmt17 fl 0 v).
+Proof. exact ser_is_rfc8259. Qed.
+Print Assumptions C02_ser_is_rfc8259.
+
+(* what "denotes" means for a double: any reader of number tokens that depends only on the exact
+   decimal value and reads the %.17g text of a double back as that double (the 17-digit round trip,
+   checked against libc on every run) reads the emitted token back as the double *)
+Theorem C02_double_reads_back : forall fmt17 (reads : Z * Z -> Z) m e bits,
+  (forall a b, dec_eq a b -> reads a = reads b) ->
+  (forall n0, num_ok n0 = true -> render_num n0 = fmt17 bits -> reads (num_val n0) = bits) ->
+  denotes fmt17 (RNum m e) (JDouble bits None) -> reads (m, e) = bits.
+Proof. exact double_reads_back. Qed.
+Print Assumptions C02_double_reads_back.
+
+(* integers of any size print exactly: the token of an int64 / uint64 node is an RFC number whose value is the integer *)
+Theorem C02_int_exact : forall z, exists n, num_ok n = true /\ render_num n = dec_s z /\ num_val n = (z, 0).
+Proof. exact int_token. Qed.
+Print Assumptions C02_int_exact.
+Theorem C02_uint_exact : forall z, 0 <= z -> exists n, num_ok n = true /\ render_num n = dec_u z /\ num_val n = (z, 0).
+Proof. exact uint_token. Qed.
+Print Assumptions C02_uint_exact.
+
+(* strings: any bytes; the literal is RFC 8259 and denotes the same bytes *)
+Theorem C02_string_exact : forall fl s, Forall byte_ok s ->
+  render_string (map (char_stx fl) s) = quoted fl s /\
+  forallb schar_ok (map (char_stx fl) s) = true /\
+  string_value (map (char_stx fl) s) = s.
+Proof. exact string_spec. Qed.
+Print Assumptions C02_string_exact.
+
+(* the reported length is the text length *)
+Theorem C02_reported_length : forall fmt17 flags v,
+  snd (to_json_string_length fmt17 flags v) = zlen (fst (to_json_string_length fmt17 flags v)).
+Proof. exact reported_length. Qed.
+Print Assumptions C02_reported_length.
+
+(* ---- 2. formatting flags change only insignificant whitespace, colour sequences, and the escape form of '/' *)
+(* proved for all 64 flag words under the guard (inside node_ok): NOZERO off, or no exponent in a %.17g text *)
+Theorem C02_flags_only_whitespace_partial : forall fmt17, fmt17_ok fmt17 -> forall fl v,
+  jv_Forall (node_ok fmt17 fl) v ->
+  significant (serialize fmt17 fl 0 v) = significant (serialize fmt17 flags_plain 0 v).
+Proof. exact flags_only_whitespace_partial. Qed.
+Print Assumptions C02_flags_only_whitespace_partial.
+
+(* the full statement (guard without the NOZERO clause) is FALSE of the code as written:
+   class nozero_eats_exponent, witness 1.5e+20 -> 1.5e+2 under JSON_C_TO_STRING_NOZERO *)
+Theorem C02_nozero_refuted : ~ flags_only_whitespace.
+Proof. exact nozero_refuted. Qed.
+Print Assumptions C02_nozero_refuted.
+
+Theorem C02_nozero_value_refuted :
+  serialize w_fmt17 w_flags 0 (JDouble w_bits None) = [49;46;53;101;43;50] /\
+  serialize w_fmt17 flags_plain 0 (JDouble w_bits None) = w_text /\
+  exists n, num_ok n = true /\ render_num n = serialize w_fmt17 w_flags 0 (JDouble w_bits None) /\
+            ~ dec_eq (num_val n) (num_val w_tok).
+Proof. exact nozero_value_refuted. Qed.
+Print Assumptions C02_nozero_value_refuted.
+
+(* the repair (scan only the fraction: nozero_span := split_exp) keeps every exponent verbatim *)
+Theorem C02_nozero_repaired_keeps_exponent : forall fr e,
+  forallb digit fr = true -> exp_ok e = true ->
+  nozero_trim_with split_exp (fr ++ render_exp e) = trim_zeros fr ++ render_exp e.
+Proof. exact nozero_repaired_keeps_exponent. Qed.
+Print Assumptions C02_nozero_repaired_keeps_exponent.
+
+(* ---- 3. round trip through the tokener model (TokModel.parse_ex_cstr) *)
+(* proved: every flag word without COLOR, every scalar tree other than a double — all int64, all uint64
+   (a uint64 <= INT64_MAX comes back as an int64 node, equal), all byte strings incl. NUL/control/non-UTF-8.
+   NOT proved: doubles and containers ([roundtrip_statement] is the full statement); they are covered by
+   the computed example below and by the differential correspondence stream of ./check C02 *)
+Theorem C02_roundtrip_scalars_partial : forall fmt17 strtod fl v,
+  color fl = false -> scalar_ok v -> roundtrip_ok fmt17 strtod fl v.
+Proof. exact roundtrip_scalars_partial. Qed.
+Print Assumptions C02_roundtrip_scalars_partial.
+
+(* non-vacuity / end to end inside Coq: a nested tree with every node type, strings with '/', quote,
+   backslash, NUL, 0x1f and UTF-8, doubles 1.5 1.0 -0.0 0.1 1e+20 1.5e+20, empty containers, under the
+   16 flag words over SPACED/PRETTY/PRETTY_TAB/NOSLASHESCAPE: re-parsed, equal, re-serialized identically *)
+Theorem C02_roundtrip_examples : forallb (fun fl => roundtrip_okb ex_fmt17 ex_strtod fl ex_tree) ex_flags = true.
+Proof. exact roundtrip_examples. Qed.
+Print Assumptions C02_roundtrip_examples.
+
+(* ... and under NOZERO the same tree does not survive (1.5e+20 comes back as 150) *)
+Theorem C02_roundtrip_nozero_example :
+  roundtrip_okb ex_fmt17 ex_strtod (mkfl false false true false false false) ex_tree = false.
+Proof. exact roundtrip_nozero_example. Qed.
+Print Assumptions C02_roundtrip_nozero_example.
+
+(* non-vacuity of the guard and of the oracle hypothesis: the example oracle satisfies fmt17_ok on the
+   example's doubles, and the example tree satisfies node_ok *)
+Theorem C02_nonvacuous : fmt17_ok w_fmt17 /\ jv_Forall (node_ok w_fmt17 flags_plain) (JArr [JDouble w_bits None; JStr [0;47;255]; JObj [([97], JNull)]]).
+Proof. exact nonvacuous. Qed.
+Print Assumptions C02_nonvacuous.
